@@ -310,7 +310,7 @@ PROPS = {
                       "drain) is decided by an exact linearizability check against the sequential FIFO specification.",
         "level_note": "Trusted: runtime, the Wing-Gong/Lowe checker (engine/lin.hpp), precedence = real-time order of the harness's "
                       "invocation/response stamps under the scheduler; SC interleavings only here.",
-        "technique": "property-based testing: generated queue programs + generated schedules vs linearizability checker (FIFO spec) and drain conservation",
+        "technique": "property-based testing: generated queue programs + generated schedules vs linearizability checker (FIFO spec) and drain conservation; plus coverage-guided fuzzing (libFuzzer, ASan+UBSan) of decoded sequential operation sequences vs a reference model",
         "rule": "case = queue configuration (michael_scott / ramalhete with 1-3 entries per node and 0-2 pop retries / nikolaev with 1-4 "
                 "entries per node) x element type (tracked value, unique_ptr, raw pointer, uint32) x reclaimer x program (prefix of up to 12 "
                 "sequential pushes/pops, 2-4 threads x up to 6 push/try_pop/pop operations, drain in 7 of 8 cases; in half of the cases all threads or the first thread run inside "
@@ -327,7 +327,7 @@ PROPS = {
                       "specification with the permissive readings the statement allows (weak failures always allowed and no-ops; "
                       "nikolaev_bounded full = stored elements + overlapping operations >= capacity).",
         "level_note": "Trusted: runtime, checker, specification encoding; SC interleavings only here.",
-        "technique": "property-based testing: generated bounded-queue programs + schedules vs linearizability checker (bounded FIFO spec)",
+        "technique": "property-based testing: generated bounded-queue programs + schedules vs linearizability checker (bounded FIFO spec); plus coverage-guided fuzzing (libFuzzer, ASan+UBSan) of decoded sequential operation sequences vs a reference model",
         "rule": "case = vyukov_bounded_queue (size 2/4/8; strong, weak and default operations mixed) or nikolaev_bounded_queue (requested "
                 "capacity 1,2,3,4,5,8, rounded up; more threads than slots included, see known finding F23) x element type x program (prefix of up to 18 operations so that the ring wraps, 2-4 threads "
                 "x up to 6 operations, drain with strong pops) x generated schedule. Oracle: linearizability against the bounded FIFO "
@@ -342,7 +342,7 @@ PROPS = {
                       "the start slot of every segment scan (utils::random) is a recorded, generated decision.",
         "level_note": "Trusted: runtime, checker, specification encoding (pop = any of the k oldest; empty allowed with fewer than k elements "
                       "under overlap; bounded push failure needs (segments-1)*k+1 stored elements).",
-        "technique": "property-based testing: generated programs + schedules + generated random-slot decisions vs linearizability checker (k-FIFO spec)",
+        "technique": "property-based testing: generated programs + schedules + generated random-slot decisions vs linearizability checker (k-FIFO spec); plus coverage-guided fuzzing (libFuzzer, ASan+UBSan) of decoded sequential operation sequences vs a reference model",
         "rule": "case = kirsch_kfifo_queue (k 1-4, reclaimer menu) or kirsch_bounded_kfifo_queue (k 1-3, 1-4 segments) x element type x "
                 "program x generated schedule x generated values for every utils::random() call. Oracle: linearizability against the "
                 "k-relaxed FIFO, conservation through the drain, lifecycle registry, quarantine allocator, hang detection in sequential "
@@ -357,7 +357,7 @@ PROPS = {
                       "cases; the element lifecycle registry decides exactly-once hand-over or destruction.",
         "level_note": "Trusted: runtime, Tracked payload bookkeeping; by-value try_push APIs may destroy a rejected value through their own "
                       "parameter object (counted as the caller's copy).",
-        "technique": "property-based testing: generated programs + schedules vs element-lifecycle census after queue destruction",
+        "technique": "property-based testing: generated programs + schedules vs element-lifecycle census after queue destruction; plus coverage-guided fuzzing (libFuzzer, ASan+UBSan) of decoded sequential operation sequences vs a reference model",
         "rule": "case = queue type (michael_scott, ramalhete, nikolaev, nikolaev_bounded, vyukov_bounded, kirsch_kfifo, kirsch_bounded_kfifo) "
                 "x owning element kind (tracked move-only value, unique_ptr<Tracked>, raw Tracked* owned by the harness) x program x "
                 "schedule; the queue is destroyed without draining in 3 of 4 cases. Oracle: every element content is alive in exactly one "
@@ -375,7 +375,7 @@ PROPS = {
                       "long single-threaded sequences checked step by step against the same model.",
         "level_note": "Trusted: runtime, checker, the encoding of erase(iterator) as 'removes exactly the referenced element if it is still "
                       "present'; traversal yields are encoded as lookups that may take effect anywhere between traversal begin and the yield.",
-        "technique": "property-based testing: generated set/map programs + schedules vs linearizability checker (set/map spec with value identity), final iteration vs model",
+        "technique": "property-based testing: generated set/map programs + schedules vs linearizability checker (set/map spec with value identity), final iteration vs model; plus coverage-guided fuzzing (libFuzzer, ASan+UBSan) of decoded sequential operation sequences vs a reference model",
         "rule": "case = container configuration (list based set with less/greater comparator; hash map with 1/2/4 buckets, identity / "
                 "constant / 2-valued / order-reversing hash, memoize_hash on/off, custom map_to_bucket; int keys or a key type whose moved-from "
                 "state is observable) x reclaimer x allocator mode (quarantine / address reuse) x optional region_guard around whole threads x program (prefix, 1-3 "
@@ -393,7 +393,7 @@ PROPS = {
                       "updater threads; decided by the yield rules (a)-(e) of DESIGN.md: memory safety, presence during the traversal (as "
                       "lookups inside the linearizability check), no element twice, no stable element skipped, erase(iterator) semantics.",
         "level_note": "Trusted: runtime, checker; 'stable' elements are those inserted by the prefix and never touched by updaters.",
-        "technique": "property-based testing: generated traversals + concurrent updates + schedules vs weak-consistency yield rules and linearizability checker",
+        "technique": "property-based testing: generated traversals + concurrent updates + schedules vs weak-consistency yield rules and linearizability checker; plus coverage-guided fuzzing (libFuzzer, ASan+UBSan) of decoded sequential operation sequences vs a reference model",
         "rule": "case = container configuration (as C08) x reclaimer x program with one traversing thread and 1-3 updaters over 3-6 keys of "
                 "which the 1-2 largest are stable (inserted first, never touched by updaters) x generated schedule. Oracle: quarantine "
                 "allocator on every access of the iterator, every yield must be linearizable as a lookup between traversal begin and the "
@@ -409,7 +409,7 @@ PROPS = {
                       "forcing repeated grows and 128/256 with extension items, colliding keys) decided by an exact linearizability check "
                       "with accessor contents, plus long single-threaded sequences against the same model.",
         "level_note": "Trusted: runtime, checker; blocking operations are allowed to wait, deadlock/livelock is reported; SC interleavings here.",
-        "technique": "property-based testing: generated map programs + schedules vs linearizability checker (map spec with value identity), final iteration vs model",
+        "technique": "property-based testing: generated map programs + schedules vs linearizability checker (map spec with value identity), final iteration vs model; plus coverage-guided fuzzing (libFuzzer, ASan+UBSan) of decoded sequential operation sequences vs a reference model",
         "rule": "case = storage specialisation (int->int, int->managed_ptr, string->managed_ptr, int->string, string->int, string->string "
                 "with colliding / constant hash) x reclaimer (and value_reclaimer) x initial capacity {1,2,4,128,256} x 4-8 keys that share "
                 "buckets x program (prefix, 1-3 threads x up to 6 operations from emplace / get_or_emplace / get_or_emplace_lazy / erase / "
@@ -427,7 +427,7 @@ PROPS = {
                       "single-threaded against the model and concurrently with lock-free readers and writers.",
         "level_note": "Trusted: runtime, checker; every yield is a point-in-time lookup (the iterator holds the bucket lock), so an update of "
                       "a locked bucket taking effect shows up as a non-linearizable history.",
-        "technique": "property-based testing: generated iterator sessions + concurrent readers/writers + schedules vs model traversal, lock probe and linearizability checker",
+        "technique": "property-based testing: generated iterator sessions + concurrent readers/writers + schedules vs model traversal, lock probe and linearizability checker; plus coverage-guided fuzzing (libFuzzer, ASan+UBSan) of decoded sequential operation sequences vs a reference model",
         "rule": "case = as C10 with an iterator session in every case (one thread: begin() or find(k), then up to 14 steps from ++ / "
                 "erase(it) / double dereference / move construction+assignment / reset), one pure try_get_value reader and 0-2 writers on "
                 "non-stable keys. Oracle: yields are point-in-time lookups inside the linearizability check, erase(iterator) removes "
@@ -444,7 +444,7 @@ PROPS = {
                       "(try_steal may additionally fail when it overlapped a successful removal), plus exactly-once hand-out and a final drain.",
         "level_note": "Trusted: runtime, checker; the index-offset prefix is checked directly (push followed by pop/steal returns the item) "
                       "rather than through the 64-operation history.",
-        "technique": "property-based testing: generated owner/thief programs + index offsets + schedules vs linearizability checker (deque spec) and conservation",
+        "technique": "property-based testing: generated owner/thief programs + index offsets + schedules vs linearizability checker (deque spec) and conservation; plus coverage-guided fuzzing (libFuzzer, ASan+UBSan) of decoded sequential operation sequences vs a reference model",
         "rule": "case = container (growing or fixed, capacity 2/4/8) x index offset 0..5*capacity reached by push+pop or push+steal traffic "
                 "(sequential cases: up to 10^4) x fill level 0..capacity+1 x owner program (up to 12 try_push/try_pop) x 1-3 thieves (up to 8 "
                 "try_steal each) x generated schedule. Oracle: linearizability against the deque specification, no item handed out twice, "
@@ -475,7 +475,7 @@ PROPS = {
                       "alignments 1/2/4/8 and 1-8 slots; every loaded value is compared byte-wise with the set of values ever stored and the "
                       "history is checked against an atomic register with read-modify-write.",
         "level_note": "Trusted: runtime, checker; element types are padding-free so byte comparison is meaningful.",
-        "technique": "property-based testing: generated store/update/load programs + schedules vs byte-exact value oracle and linearizability checker (RMW register spec)",
+        "technique": "property-based testing: generated store/update/load programs + schedules vs byte-exact value oracle and linearizability checker (RMW register spec); plus coverage-guided fuzzing (libFuzzer, ASan+UBSan) of decoded sequential operation sequences vs a reference model",
         "rule": "case = element type (byte arrays of 9/12/16/20/24/33 bytes, uint16x5, uint32x3, uint64x2/3/4, packed struct) x slots "
                 "{1,2,3,4,8} x 1-2 writers x up to 6 store/update and 1-3 readers x up to 6 load x generated schedule. Oracle: every byte of a "
                 "loaded value is the byte of one stored value (all sizeof(T) bytes of the same value), history linearizable w.r.t. a register "
